@@ -73,7 +73,11 @@ def _k1(ctx: Context) -> None:
     tag = P.const_of(f"{M}.TAG_LENGTH")
     ck.check("C05.K1", tag == FRAME_TAG_BYTES, "TAG_LENGTH = 16", f"{M}:TAG_LENGTH", f"TAG_LENGTH is {tag}, the Poly1305 tag has 16 bytes", loc)
     for name, meth in (("PACK_UNSIGNED_SHORT_LITTLE", "pack"), ("UNPACK_UNSIGNED_SHORT_LITTLE", "unpack")):
-        v = P.const_of(f"{M}.{name}")
+        try:
+            v = P.const_of(f"{M}.{name}")
+        except Exception:  # noqa: BLE001 - the module no longer defines the constant (another spelling of the packer is used)
+            ck.unknown("C05.K1", f"{name} is no longer a module constant: the layout of the length prefix is read where it is used (T1 / T2)", loc)
+            continue
         ok = isinstance(v, StructMethod) and v.method == meth and v.struct.fmt == "<H"
         ck.check("C05.K1", ok, f"{name} = Struct('<H').{meth}", f"{M}:{name}", f"{name} is {v}: the length prefix must be an unsigned little-endian 16-bit value", loc)
     PROBE = 0x0102030405060708
@@ -164,11 +168,18 @@ def _t1(ctx: Context) -> None:
     en = enc_nodes[0]
     ecalls = [c for c in ctx.calls(en) if isinstance(c.func, (ast.Name, ast.Attribute)) and (lambda ft: ft[0] == "attr" and ft[2] == "encrypt")(T.of(cfg, en, c.func))]
     et = strip_sites(T.of(cfg, en, ecalls[0])) if ecalls else ("unknown", "")
+    local_ctr = False
     if et[0] == "call" and len(et[2]) == 3:
         nonce = et[2][1]
         ctr_t = nonce[2][1] if _is_pack(nonce, "<LQ") and len(nonce[2]) == 2 else None
         direct = ctr_t is not None and ctr_t[0] == "attr" and ctr_t[1] == ("param", "self")
-        ck.check("C05.T1", direct, "the nonce counter is the protocol's send counter attribute itself", f"{ctx.fkey(f)}:nonce-counter",
+        local_ctr = ctr_t is not None and not direct and contains(ctr_t, lambda s_: isinstance(s_, tuple) and s_[:2] == ("attr", ("param", "self")))
+        if local_ctr:
+            # the counter threaded through a local and written back (see C06.G1): consecutive values are a fact about values
+            # along the loop that is not computed here
+            ck.unknown("C05.T1", f"send_bytes packs the nonce from a local computed from the send counter ({show(ctr_t, 60)}): the counter is threaded through a local - not decided", ctx.loc(f, en))
+        else:
+            ck.check("C05.T1", direct, "the nonce counter is the protocol's send counter attribute itself", f"{ctx.fkey(f)}:nonce-counter",
                  f"send_bytes builds the nonce from {show(ctr_t, 80) if ctr_t else 'a non-counter value'} instead of the send counter attribute: frame counters of "
                  "consecutive requests can overlap or skip", ctx.loc(f, en))
         if direct:
@@ -277,7 +288,7 @@ def _t1(ctx: Context) -> None:
         e = flat[1][1]
         if e[0] == "call" and e[1][0] == "attr" and e[1][2] == "encrypt" and len(e[2]) == 3:
             aad, nonce, pt = e[2]
-            ctr_ok = _is_pack(nonce, "<LQ") and len(nonce[2]) == 2 and nonce[2][0] == ("const", 0) and nonce[2][1][0] == "attr" and nonce[2][1][1] == ("param", "self")
+            ctr_ok = _is_pack(nonce, "<LQ") and len(nonce[2]) == 2 and nonce[2][0] == ("const", 0) and ((nonce[2][1][0] == "attr" and nonce[2][1][1] == ("param", "self")) or local_ctr)
             ok_enc = aad == want_len and ctr_ok and pt == chunk_t and e[1][1][0] == "attr" and e[1][1][1] == ("param", "self")
     ck.check("C05.T1", ok_enc, "second item: encrypt(aad = the length bytes, nonce = PACK_NONCE(send counter), plaintext = the chunk)",
              f"{ctx.fkey(f)}:cipher-item", f"send_bytes: the encrypted item is {show(flat[1][1], 200) if len(flat) == 2 else 'missing'}", ctx.loc(f, flat[1][0] if len(flat) == 2 else loops[0]))
@@ -295,6 +306,11 @@ def _t1(ctx: Context) -> None:
         bufs = {_u(cc.func.value) for _n, cc in [(e[0], x) for e in emits for x in ctx.calls(e[0]) if isinstance(x.func, ast.Attribute) and x.func.attr in ("append", "extend")]}
         bufs |= aug_bufs
         oks = arg is not None and _u(arg) in bufs and len(bufs) == 1
+        if not oks and arg is not None and len(bufs) == 1 and isinstance(arg, ast.Name) and strip_sites(T.of(cfg, n, arg)) in (("list", ()), ("sub", ("list", ()), ("const", 0))):
+            # handed over under another name (returned by an inlined helper in a tuple and unpacked): the same list as far as its
+            # definition goes, which list object it is is not followed
+            ck.unknown("C05.T1", f"send_bytes hands `{_u(arg)}` to _send_lines, the frames are appended to `{sorted(bufs)[0]}`: that these name one list is not decided", ctx.loc(f, n))
+            oks = True
     ck.check("C05.T1", oks, "exactly one _send_lines(buffer) after the loop, with the list the frames were appended to", f"{ctx.fkey(f)}:single-send",
              "send_bytes does not hand the complete frame list to _send_lines exactly once after the loop", ctx.loc(f, sl[0][0] if sl else loops[0]))
 
@@ -419,7 +435,19 @@ def _t2(ctx: Context) -> None:
         l, r = r, l
         op = {"Lt": "Gt", "Gt": "Lt", "LtE": "GtE", "GtE": "LtE"}.get(op, op)
     E = r
-    ck.check("C05.T2", E in E_forms, "expected length E = 2 + unpack('<H', buffer[:2])[0] + 16", f"{ctx.fkey(f)}:expected-length",
+    def _is_E(e_):
+        """2 + <the unsigned little-endian 16 bits at offset 0 of the buffer> + 16, in any spelling of the read and any order / grouping of the constants"""
+        from ..engine.terms import byte_field
+
+        parts_ = list(e_[1]) if e_[0] == "add" else [e_]
+        consts_ = [p_[1] for p_ in parts_ if p_[0] == "const" and isinstance(p_[1], int)]
+        rest_ = [p_ for p_ in parts_ if not (p_[0] == "const" and isinstance(p_[1], int))]
+        if len(rest_) != 1 or sum(consts_) != FRAME_LENGTH_BYTES + FRAME_TAG_BYTES:
+            return False
+        bf_ = byte_field(rest_[0])
+        return bf_ is not None and strip_sites(bf_[0]) == buf and bf_[1] == 0 and bf_[2] == 2 and bf_[3] in ("little", "<") and not bf_[4]
+
+    ck.check("C05.T2", E in E_forms or _is_E(E), "expected length E = 2 + unpack('<H', buffer[:2])[0] + 16", f"{ctx.fkey(f)}:expected-length",
              f"data_received: the expected frame length is {show(E, 160)} (must be length prefix 2 + declared length + tag 16)", ctx.loc(f, n))
     ck.check("C05.T2", op == "Lt", "incomplete-frame test is exactly len(buffer) < E", f"{ctx.fkey(f)}:incomplete-operator",
              f"data_received: the incomplete-frame test is `len(buffer) {op} E`: with <= a frame that just arrived completely is left waiting for a byte that never comes, "
